@@ -297,6 +297,12 @@ class ConcRun(object):
                 for _ in range(10):
                     if k == 'agg_put':
                         g.versions = ['1.19', '1.28', '1.39']
+                    elif k in ('alloc_put', 'alloc_post', 'reshape'):
+                        # C06/C07 speak about writes carrying consumer
+                        # generations (>= 1.28); older writes adopt whatever
+                        # consumer record they find
+                        g.versions = ['1.28', '1.30', '1.34', '1.38',
+                                      '1.39']
                     op = getattr(g, 'g_' + k)(m)
                     g.versions = None
                     if op is not None:
